@@ -11,6 +11,7 @@ from .. import suite as S
 
 PROP = "C03"
 PROP_V = "theories/props/C03.v"
+MODEL_AREAS = ('front', 'tc', 'run', 'compat')
 
 
 def run(b, ps, tier, seed):
